@@ -95,10 +95,13 @@ ssize_t __wrap_read(int fd, void *buf, size_t len)
             const char *c = strchr(it, ':'); long k = c ? atol(c + 1) : 5;
             if (k < 1) k = 1; if (k > 31) k = 31;
             if (len >= 32 || got + len > 32) got = 0;
-            if ((size_t)k >= len) k = (long)len - 1;
-            if (k < 1) k = 1;
-            memcpy(buf, osbytes + got, (size_t)k); got += (size_t)k;
-            emit_os("read", "SHORT", k, (long)len); return k;
+            if ((size_t)k < len) {
+                memcpy(buf, osbytes + got, (size_t)k); got += (size_t)k;
+                emit_os("read", "SHORT", k, (long)len); return k;
+            }
+            /* the request is not longer than what this short read would deliver: it is served in full */
+            memcpy(buf, osbytes + got, len); got += len;
+            emit_os("read", "OK", (long)len, (long)len); return (ssize_t)len;
         }
         long r = os_random("read", buf, len, 0);
         return r;
